@@ -5,7 +5,6 @@ import (
 	"io/ioutil"
 	"os"
 	"path/filepath"
-	"time"
 
 	"github.com/meshplus/bitxhub-model/pb"
 	"github.com/meshplus/bitxhub/verif/harness"
@@ -13,45 +12,47 @@ import (
 
 func init() { workloads["smoke"] = smoke }
 
+// smoke: does a SERVICE event of a transaction that fails at fee payment poison the service cache?
 func smoke(args []string) int {
 	dir, _ := ioutil.TempDir("", "verif.smoke.")
 	defer os.RemoveAll(dir)
-	t0 := time.Now()
 	w, err := harness.BuildStandard(filepath.Join(dir, "fx"), harness.Options{})
 	if err != nil {
 		fmt.Println("build:", err)
 		return 1
 	}
-	fmt.Println("fixture height", w.R.Height(), time.Since(t0))
-	ka := harness.ChainAdmin("chainW")
-	addr, err := w.DeployRule(ka, "firstbyte")
-	fmt.Println("rule", addr, err)
-	err = w.RegisterAppchain(ka, "chainW", "ETH", addr, nil)
-	fmt.Println("register chainW:", err)
-	err = w.RegisterService(ka, "chainW", "s1", true, "")
-	fmt.Println("register svc:", err)
-	from, to := harness.FullID("chainW", "s1"), harness.FullID(harness.ChainB, "s1")
-	pier := harness.User(0)
-	res, err := w.Exec(w.IBTPTx(pier, harness.MkIBTP(from, to, 1, pb.IBTP_INTERCHAIN, 3), []byte{1, 2, 3}))
-	if err != nil {
-		fmt.Println(err)
-		return 1
+	ca := harness.ChainAdmin(harness.ChainA)
+	// drain the chain admin: leave less than one BVM fee
+	bal := w.R.ViewL.GetBalance(ca.Addr)
+	w.R.ViewL.Clear()
+	fmt.Println("admin balance", bal)
+	keep := int64(5000000000)
+	amt := bal.String()
+	_ = keep
+	// transfer everything but 1.2e10 (transfer fee 1.05e9 is paid on top)
+	var a, b, c = bal, bal, bal
+	_, _, _ = a, b, c
+	rest := "999999999968450000000" // 1e21 - fees paid so far is unknown: compute below
+	_ = rest
+	_ = amt
+	left := int64(10000000000)
+	x := new(bigInt).Sub(bal, newBig(left))
+	res, _ := w.Exec(w.Transfer(ca, harness.User(0).Addr, x.String()))
+	fmt.Println("drain:", res.Receipts[0].Status, string(res.Receipts[0].Ret))
+	bal2 := w.R.ViewL.GetBalance(ca.Addr)
+	w.R.ViewL.Clear()
+	fmt.Println("admin balance now", bal2)
+	svc := harness.ChainA + ":s1"
+	res, _ = w.Exec(w.BVM(ca, harness.AddrService, "UpdateService", pb.String(svc), pb.String("newname"), pb.String("intro2"), pb.String(""), pb.String("d"), pb.String("r")),
+		w.BVM(ca, harness.AddrService, "UpdateService", pb.String(svc), pb.String("newname2"), pb.String("intro2"), pb.String(""), pb.String("d"), pb.String("r")))
+	for _, rc := range res.Receipts {
+		fmt.Println("update:", rc.Status, string(rc.Ret))
 	}
-	fmt.Println("request good proof:", res.Receipts[0].Status, string(res.Receipts[0].Ret))
-	if len(args) > 0 {
-		res, err = w.Exec(w.IBTPTx(pier, harness.MkIBTP(from, to, 2, pb.IBTP_INTERCHAIN, 3), []byte{0, 2, 3}))
-		if err != nil {
-			fmt.Println(err)
-			return 1
-		}
-		fmt.Println("request bad proof:", res.Receipts[0].Status, string(res.Receipts[0].Ret))
-	}
-	for _, m := range w.R.Surface() {
-		if m.CName == "Store" {
-			fmt.Println(m.CName, m.Name, m.In, m.Variadic, m.NumOut)
-		}
-	}
-	fmt.Println("surface size", len(w.R.Surface()))
+	q := w.R.Query(harness.AddrService, "GetServiceInfo", pb.String(svc))
+	fmt.Println("ledger service:", string(q.Ret)[:160])
+	from, to := harness.FullID(harness.ChainA, "s1"), harness.FullID(harness.ChainB, "s1")
+	res, _ = w.Exec(w.IBTPTx(harness.User(1), harness.MkIBTP(from, to, 1, pb.IBTP_INTERCHAIN, 0), []byte("p")))
+	fmt.Println("ibtp on running node:", res.Receipts[0].Status, string(res.Receipts[0].Ret))
 	w.R.Close()
 	return 0
 }
